@@ -224,7 +224,8 @@ Theorem append_sim_rep info bs f w2 ls e w1' acts w2' e' :
   len (image info (bs ++ [b])) < two32 ->
   acts = [WWrite (len (image info bs)) (batch_write info s b); WSync] /\
   w1' = wst info (cstate info (bs ++ [b])) /\ rep_w w1' w2' /\
-  exists f', lookup n (dk_files (e_disk e')) = Some f' /\ rep info (bs ++ [b]) f'.
+  lookup n (dk_files (e_disk e')) = Some (synced f (pb_of ls w1')) /\
+  rep info (bs ++ [b]) (synced f (pb_of ls w1')).
 Proof.
   intros s n R Hl Rw Hc Hne Hf Ha H2 b Hlen.
   assert (Hrun : wrun (wst info s) [OpAppend (ents ls)] = Some (w1', acts, [b])).
@@ -238,7 +239,7 @@ Proof.
   rewrite Ha in Ea. inversion Ea; subst r w1x actsx. rewrite H2 in E2.
   inversion E2 as [[Ew2 Ee]]. subst w2x.
   split; [exact Eacts|]. split; [exact Ew|]. split; [exact Rw'|].
-  exists (synced f (pb_of ls w1')). split; [|exact R'].
+  split; [|exact R'].
   rewrite (rw_name _ _ Rw). cbn [wst w_info]. fold n. rewrite Eabs.
   rewrite do_write_sync by exact Hf. exact Hl'.
 Qed.
@@ -255,7 +256,8 @@ Theorem force_seal_sim_rep info bs f w2 e w1' acts w2' e' :
   len (image info (bs ++ [b])) < two32 ->
   acts = [WWrite (len (image info bs)) (batch_write info s b); WSync] /\
   w1' = wst info (cstate info (bs ++ [b])) /\ rep_w w1' w2' /\
-  exists f', lookup n (dk_files (e_disk e')) = Some f' /\ rep info (bs ++ [b]) f'.
+  lookup n (dk_files (e_disk e')) = Some (synced f (pb_of [] w1')) /\
+  rep info (bs ++ [b]) (synced f (pb_of [] w1')).
 Proof.
   intros s n R Hl Rw Hf Hu Ha H2 b Hlen.
   assert (Hns : sealed (wst info s) = false).
@@ -269,7 +271,7 @@ Proof.
   rewrite Ha in Ea. inversion Ea; subst r w1x actsx. rewrite H2 in E2.
   inversion E2 as [[Ew2 Ee]]. subst w2x.
   split; [exact Eacts|]. split; [exact Ew|]. split; [exact Rw'|].
-  exists (synced f (pb_of [] w1')). split; [|exact R'].
+  split; [|exact R'].
   rewrite (rw_name _ _ Rw). cbn [wst w_info]. fold n. rewrite Eabs.
   rewrite do_write_sync by exact Hf. exact Hl'.
 Qed.
